@@ -109,6 +109,9 @@ def run(ctx):
         len({(e["typ"], tuple(e["bytes"])) for e in rt if len(e["v"]) >= 1})
     for e in (rt[len(rt) // 2], g[len(g) // 3], g[-1]):
         ctx.sample({k: (v if not isinstance(v, list) or len(v) < 40 else v[:40] + ["..."]) for k, v in e.items()})
+    sigs = collections.Counter(v["signature"] for v in ctx.violations)
+    for sig, n in sorted(sigs.items()):
+        ctx.log("violation signature %-70s x %d" % (sig, n))
     return ctx.finish(
         evaluations=len(events), distinct_nontrivial=nontrivial,
         rule="evaluations = round trips (value, real encoder bytes, real decoder result) + malformed inputs decoded "
@@ -117,6 +120,6 @@ def run(ctx):
              "round-tripped values with at least one item; seeded random byte strings are counted separately "
              "(exploration, not exhaustive)",
         exhaustive=False,
-        extra={"scripts_from_tlc": len(scripts), "random_inputs": sum(1 for e in g if e["cls"] == "random"),
+        extra={"violation_signatures": dict(sigs), "scripts_from_tlc": len(scripts), "random_inputs": sum(1 for e in g if e["cls"] == "random"),
                "round_trips": len(rt), "spec_outcome_classes": stats, "real_outcomes": dict(by_out),
                "inputs_per_damage_class": dict(sorted(by_cls.items()))})
